@@ -214,10 +214,15 @@ def direct(tname, table):
         has = attempt(n.has_sld)
         if has is not False:
             if a == 0 and len(isos) > 1:
-                fail("C07:element-without-row-takes-first-of-several-isotopes:%s" % atom.symbol,
+                # the recorded finding is that the element serves the record of its FIRST isotope row; which of its
+                # isotopes the record really is, is looked up (another isotope's record is another violation)
+                whose = [i for i in isos if all(same_value(attempt(getattr, n, f), attempt(getattr, atoms[(z, i)].neutron, f))
+                                                for f in ("b_c", "absorption", "total"))]
+                fail("C07:element-without-row-takes-first-of-several-isotopes:%s" % atom.symbol if whose[:1] == isos[:1] else
+                     "C07:element-without-row-serves-isotope:%s-%s" % (atom.symbol, whose[0] if whose else "none-of-them"),
                      "%s has no row of its own and %d isotope rows (%s), yet %s.neutron.has_sld() is %r and it reports "
                      "b_c=%r of %s-%d" % (atom.symbol, len(isos), ",".join(str(i) for i in isos), atom.symbol, has,
-                                          attempt(getattr, n, "b_c"), atom.symbol, isos[0]),
+                                          attempt(getattr, n, "b_c"), atom.symbol, whose[0] if whose else 0),
                      atom=atom.symbol, field="has_sld", observed=repr(has), expected=False)
             else:
                 fail("C07:absent-atom-has-sld:%s" % atom_repr(atom), "%s is not in the neutron table but has_sld() is %r"
